@@ -266,11 +266,11 @@ def truncated_expected(enc, raw_ts=False):
     return full[:keep]
 
 
-def run_task(task):
+def run_task(task, full=None, tcode=None):
     enc = s1.build(task['shape'])
     raw_ts = bool(task.get('raw_ts'))
-    full = truncated_expected(enc, raw_ts)
-    tcode = enc.channels[A].tcode
+    full = truncated_expected(enc, raw_ts) if full is None else full
+    tcode = enc.channels[A].tcode if tcode is None else tcode
     n = len(full)
     api, mode = task['api'], task['mode']
     eager = mode == 'eager'
@@ -388,14 +388,14 @@ def _msgclass(msg):
     return ''.join(ch for ch in msg[:30] if ch.isalpha() or ch == ' ').strip().replace(' ', '-')
 
 
-def replay(art):
+def replay(art, full=None, tcode=None):
     """Concrete replay on the plain package.  Returns None if the property holds on this input."""
     import numpy as np
     task, inp = art['task'], art['inputs']
     enc = s1.build(task['shape'])
     raw_ts = bool(task.get('raw_ts'))
-    full = truncated_expected(enc, raw_ts)
-    tcode = enc.channels[A].tcode
+    full = truncated_expected(enc, raw_ts) if full is None else full
+    tcode = enc.channels[A].tcode if tcode is None else tcode
     n = len(full)
     api = task['api']
 
